@@ -30,7 +30,7 @@ P == CASE Profile = "c04q" ->
              bodies |-> {"def", "guard", "once", "incq", "inca", "testX"},
              stmts |-> {"qh", "ah", "qg", "ag", "defX", "mq", "ma", "undefM", "undefG", "inch"}, maxmain |-> 3, nmains |-> 1,
              idirs |-> {<<Iu("inc"), Is("sys")>>, <<Iu("inc")>>, <<Is("sys"), Iu("inc")>>, <<Iu("sys"), Iu("inc")>>, <<>>},
-             forced |-> {<<>>, <<"g.h">>}, nents |-> 1, plats |-> <<"p1">>]
+             forced |-> {<<>>, <<"g.h">>, <<"h.h", "g.h">>}, nents |-> 1, plats |-> <<"p1">>]
       [] Profile = "c04h" ->
             \* computed includes whose operand comes from the command line: two TUs of ONE platform
             [slots |-> <<<<"inc", "h.h">>, <<"inc", "g.h">>, <<"src", "h.h">>>>,
@@ -56,7 +56,7 @@ P == CASE Profile = "c04q" ->
              maxmain |-> 4, nmains |-> 2,
              idirs |-> {<<Iu("inc"), Is("sys")>>, <<Iu("inc")>>, <<Is("sys"), Iu("inc")>>, <<Iu("sys"), Iu("inc")>>, <<>>,
                         <<Iu("ext"), Iu("inc")>>, <<Iu("inc"), Iu("ext"), Is("sys")>>, <<Iu("src"), Iu("inc")>>, <<Iu("inc"), Iu("src")>>},
-             forced |-> {<<>>, <<"g.h">>}, nents |-> 3, plats |-> <<"p1", "p2">>]
+             forced |-> {<<>>, <<"g.h">>, <<"h.h", "g.h">>}, nents |-> 3, plats |-> <<"p1", "p2">>]
       [] Profile = "c08q" ->
             [slots |-> <<<<"inc", "h.h">>, <<"inc", "g.h">>>>,
              bodies |-> {"once", "guard", "testX", "defX", "undefX", "indX"}, stmts |-> {"qh", "qg", "testX", "valX", "defX", "inch", "indX"},
